@@ -719,7 +719,16 @@ func (z *zzC06Srv) call(key string, body any) (code int, resp string) {
 // updating the entries that differ in place (PUT .../update), any other one
 // by deleting and adding.
 func (z *zzC06Srv) setTable(rws []zzC06RW) (err error) {
-	norm := func(rw zzC06RW) (n zzC06RW) { return zzC06RW{Domain: strings.ToLower(rw.Domain), Answer: rw.Answer} }
+	// Entries that the server may consider equal: the pattern is normalised,
+	// and so may be the letter case of a canonical name.
+	norm := func(rw zzC06RW) (n zzC06RW) {
+		n = zzC06RW{Domain: strings.ToLower(rw.Domain), Answer: rw.Answer}
+		if _, err := netip.ParseAddr(rw.Answer); err != nil && rw.Answer != "A" && rw.Answer != "AAAA" {
+			n.Answer = strings.ToLower(rw.Answer)
+		}
+
+		return n
+	}
 	dup := false
 	for i := range z.cur {
 		for j := range z.cur {
@@ -729,11 +738,13 @@ func (z *zzC06Srv) setTable(rws []zzC06RW) (err error) {
 
 	if len(rws) == len(z.cur) && len(rws) > 0 && !dup {
 		for i, rw := range rws {
-			if norm(z.cur[i]) == norm(rw) {
+			// (skip only what is stored exactly like this already)
+			if strings.ToLower(z.cur[i].Domain) == strings.ToLower(rw.Domain) && z.cur[i].Answer == rw.Answer {
 				continue
 			}
 
-			body := map[string]any{"target": norm(z.cur[i]), "update": rw}
+			target := zzC06RW{Domain: strings.ToLower(z.cur[i].Domain), Answer: z.cur[i].Answer}
+			body := map[string]any{"target": target, "update": rw}
 			if code, resp := z.call("PUT /control/rewrite/update", body); code != http.StatusOK {
 				return fmt.Errorf("update %v: %d %s", body, code, resp)
 			}
@@ -757,9 +768,15 @@ func (z *zzC06Srv) setTable(rws []zzC06RW) (err error) {
 }
 
 func (z *zzC06Srv) replaceTable(rws []zzC06RW) (err error) {
-	for _, rw := range z.cur {
-		del := zzC06RW{Domain: strings.ToLower(rw.Domain), Answer: rw.Answer}
-		if code, body := z.call("POST /control/rewrite/delete", del); code != http.StatusOK {
+	// Delete what the API lists, as the web interface does.
+	code, body := z.call("GET /control/rewrite/list", nil)
+	var listed []zzC06RW
+	if code != http.StatusOK || json.Unmarshal([]byte(body), &listed) != nil {
+		return fmt.Errorf("list: %d %s", code, body)
+	}
+
+	for _, rw := range listed {
+		if code, body = z.call("POST /control/rewrite/delete", rw); code != http.StatusOK {
 			return fmt.Errorf("delete %v: %d %s", rw, code, body)
 		}
 	}
@@ -783,7 +800,8 @@ func (z *zzC06Srv) checkList(rws []zzC06RW) (err error) {
 	}
 
 	for i := range got {
-		if got[i].Domain != strings.ToLower(rws[i].Domain) || got[i].Answer != rws[i].Answer {
+		// (the letter case in which a canonical name is stored is immaterial)
+		if got[i].Domain != strings.ToLower(rws[i].Domain) || !strings.EqualFold(got[i].Answer, rws[i].Answer) {
 			return fmt.Errorf("list differs at %d: %v vs %v", i, got[i], rws[i])
 		}
 	}
@@ -1592,6 +1610,8 @@ type zzC06ProbeIn struct {
 		IPs    []string            `json:"ips"`
 		FromUp []string            `json:"fromup"`
 		Rcode  string              `json:"rcode"`
+		// CNAMEOpt: the CNAME record may be missing (error reply).
+		CNAMEOpt bool `json:"cnameopt"`
 	} `json:"expect"`
 	// Expected are admissible observations in concrete form (as recorded by
 	// the replay with a disagreement).
@@ -1637,7 +1657,7 @@ func TestZZVerifC06PipeProbe(t *testing.T) {
 		exp := append([]zzC06Obs{}, in.Expected...)
 		for _, e := range in.Expect {
 			o := zzC06Obs{
-				Ask: [][2]string{}, Rcode: e.Rcode, QOK: true, CNAME: zzC06Name(e.CNAME),
+				Ask: [][2]string{}, Rcode: e.Rcode, QOK: true, CNAME: zzC06Name(e.CNAME), CNAMEOpt: e.CNAMEOpt,
 				FromUp: zzC06Name(e.FromUp), IPs: zzC06Cur.concrete(e.IPs),
 			}
 			sort.Strings(o.IPs)
